@@ -17,8 +17,22 @@ byte strings the same way (values below 0x100).
   disc <outcome>                   -> ok | raise <Class>      (and the task is finished afterwards)
   outcome ::= ok | <Class>
   state   ::= task=<n|w|ok|Class> delivered=[<item>*] waiting=<k> queue=[<item>*],  item ::= m:<line> | e
+
+The client OBJECT (`Model/MqttObject.lean`), one object at a time:
+  onew                                    -> ostate           (a new `MQTTClient`)
+  oconnect <aenter> <aexit> <sub>*        -> ostate           (`connect()`; outcomes of `__aenter__`, of `__aexit__`
+                                                               in the clean-up, and of each `subscribe`)
+  odisconnect <aexit>                     -> ostate
+  oev msg <topic> <bytes> | oev err | oev cancel -> ostate    (a broker event on the connection the object holds)
+  oread                                   -> ostate
+  owrite <prefix> <line> <outcome>        -> ostate
+  osub <outcome>                          -> ostate           (`_subscribe` called directly)
+  odump                                   -> ostate
+  ostate  ::= res=<done|pub:<topic>:<payload>:<qos>|transportError|transportFailed|foreign:<Class>>
+              client=<0|1> task=<none|n|w|ok|Class> delivered=[<item>*] waiting=<k> queue=[<item>*]
 -/
 import AioMySensors.Model.Mqtt
+import AioMySensors.Model.MqttObject
 
 open AioMySensors AioMySensors.Mqtt
 
@@ -71,6 +85,40 @@ def showState (s : TState) : String :=
   s!"task={showTask s.task} delivered=[" ++ " ".intercalate (s.q.delivered.map showItem) ++
   s!"] waiting={s.q.waiting} queue=[" ++ " ".intercalate (s.q.queue.map showItem) ++ "]"
 
+def showORes : ORes → String
+  | .done => "done"
+  | .published t p q => s!"pub:{encodeStr t}:{encodeStr p}:{q}"
+  | .raised .transportError => "transportError"
+  | .raised .transportFailed => "transportFailed"
+  | .raised (.foreign c) => "foreign:" ++ exnName c
+
+def showOState (r : ORes) (s : OState) : String :=
+  s!"res={showORes r} client={if s.client then 1 else 0} task=" ++
+  (match s.task with | none => "none" | some t => showTask t) ++ " delivered=[" ++
+  " ".intercalate (s.q.delivered.map showItem) ++
+  s!"] waiting={s.q.waiting} queue=[" ++ " ".intercalate (s.q.queue.map showItem) ++ "]"
+
+/-- One object-level command: the operation it stands for. -/
+def parseOOp : List String → Option OOp
+  | "oconnect" :: a :: x :: subs =>
+    match parseOutcome a, parseOutcome x, subs.mapM parseOutcome with
+    | some a, some x, some subs => some (.connect a subs x)
+    | _, _, _ => none
+  | ["odisconnect", x] => (parseOutcome x).map .disconnect
+  | ["oev", "msg", t, b] =>
+    match decodeStr t, decodeNats b with
+    | some t, some b => some (.broker (.message t b))
+    | _, _ => none
+  | ["oev", "err"] => some (.broker .mqttError)
+  | ["oev", "cancel"] => some (.broker .cancel)
+  | ["oread"] => some .read
+  | ["owrite", p, l, o] =>
+    match decodeStr p, decodeStr l, parseOutcome o with
+    | some p, some l, some o => some (.write p l o)
+    | _, _, _ => none
+  | ["osub", o] => (parseOutcome o).map .subscribe
+  | _ => none
+
 def showPub (r : Str × Str × Int) : String := s!"ok {encodeStr r.1} {encodeStr r.2.1} {r.2.2}"
 
 def step (st : TState) (line : String) : TState × String :=
@@ -122,14 +170,29 @@ def step (st : TState) (line : String) : TState × String :=
     | none => (st, "bad-op")
   | _ => (st, "bad-op")
 
-partial def loop (h : IO.FS.Stream) (out : IO.FS.Stream) (st : TState) : IO Unit := do
+/-- Commands starting with `o` act on the object state, everything else on the transport state. -/
+def stepAll (st : TState × OState) (line : String) : (TState × OState) × String :=
+  let toks := (line.trimAscii.toString.splitOn " ").filter (· ≠ "")
+  match toks with
+  | ["onew"] => ((st.1, {}), showOState .done {})
+  | ["odump"] => (st, showOState .done st.2)
+  | tok :: _ =>
+    if tok.startsWith "o" then
+      match parseOOp toks with
+      | some op => let r := oStep st.2 op; ((st.1, r.1), showOState r.2 r.1)
+      | none => (st, "bad-op")
+    else
+      let r := step st.1 line; ((r.1, st.2), r.2)
+  | [] => (st, "bad-op")
+
+partial def loop (h : IO.FS.Stream) (out : IO.FS.Stream) (st : TState × OState) : IO Unit := do
   let line ← h.getLine
   if line.isEmpty then return ()
-  let (st', o) := step st line
+  let (st', o) := stepAll st line
   out.putStrLn o
   loop h out st'
 
 def main : IO Unit := do
   let out ← IO.getStdout
-  loop (← IO.getStdin) out {}
+  loop (← IO.getStdin) out ({}, {})
   out.flush
